@@ -136,7 +136,7 @@ def gen_case(r, n=None, dims=(1, 1, 2, 2, 3, 4, 5), exact_only=False, spec=None,
     """one JSON-able problem + parameter set"""
     n = n or r.choice(dims)
     spec = spec if spec is not None else objectives.gen_spec(r, n, exact_only)
-    if not exact_only and spec["kind"] != "offset" and r.random() < 0.05:
+    if not exact_only and spec["kind"] not in ("offset", "band") and r.random() < 0.05:
         # values that are LARGE compared with their variation (a comparison with a relative tolerance would blur them)
         spec = {"kind": "offset", "c": r.choice([1e10, 1e6, -1e9, 12345678.5]), "s": r.choice([1.0, 1.0, 1e-4]), "of": spec}
     lower, upper = box if box is not None else gen_box(r, n)
